@@ -556,13 +556,12 @@ def rule_DF(run: Run) -> RuleResult:
     # Request.run goes through the current runtime
     rq = run.repo.cls("Request")
     rf = rq.methods.get("run")
-    CUR = f"call:setdefault({T_KEY},{OWN_THREAD},new:Runtime(Const(None)))"
     ok_q = False
     shown = ""
     if rf is not None:
         qps = _fn_paths(run, rf, rq)
         shown = f"{[p.ret.key()[:80] if p.ret is not None else p.status for p in qps]}"
-        ok_q = bool(qps) and all(p.status == "ret" and p.ret is not None and p.ret.key() == f"call:run({CUR},self)" for p in qps)
+        ok_q = bool(qps) and all(p.status == "ret" and p.ret is not None and cur_norm(run, p.ret.key()) == "call:run(<CUR>,self)" for p in qps)
     res.add("labrea.runtime.Request.run:served by the current runtime", ok_q, m.relpath, rf.lineno if rf else 0, shown or "current_runtime().run(self)", nec)
     hd = run.repo.func("labrea.runtime.handle_by_default")
     hps = _fn_paths(run, hd.node, None)
@@ -580,11 +579,53 @@ def rule_DF(run: Run) -> RuleResult:
 MUT = {"update", "setdefault", "pop", "popitem", "clear", "__setitem__", "__delitem__"}
 
 
+def current_runtime_reader(run: Run):
+    """(FuncInfo, keys of the terms it returns) — the parameterless function of the runtime module every returning path of which hands
+    back what the thread -> runtime table holds, or now holds, for the current thread: ``table.setdefault(thread, Runtime())``, or
+    ``table.get(thread)`` / ``table[thread]``, or a fresh ``Runtime()`` that the same path stored under the thread."""
+    if "cur_reader" in run._rule_cache:
+        return run._rule_cache["cur_reader"]
+    m, rt = _rt(run)
+    found = (None, set())
+    for q, fi in run.repo.functions.items():
+        if fi.module is not m or fi.node.args.args or fi.node.args.posonlyargs or fi.node.args.kwonlyargs or fi.node.args.vararg or fi.node.args.kwarg:
+            continue
+        try:
+            ps = _fn_paths(run, fi.node, None)
+        except AnalysisError:
+            continue
+        rets = [p for p in ps if p.status == "ret"]
+        if not rets or len(rets) != len(ps):
+            continue
+        keys, good = set(), True
+        for p in rets:
+            k = p.ret.key() if p.ret is not None else "None"
+            if k.startswith(f"call:setdefault({T_KEY},{OWN_THREAD},new:Runtime(") or k in (f"call:get({T_KEY},{OWN_THREAD})", f"getitem({T_KEY},{OWN_THREAD})"):
+                keys.add(k)
+            elif k.startswith("new:Runtime(") and any(e.kind == "store" and len(e.args) == 2 and e.args[0].key() == T_KEY and e.args[1].key() == f"index({OWN_THREAD})"
+                                                      and e.target is not None and e.target.key() == k for e in p.events):
+                keys.add(k)
+            else:
+                good = False
+        if good and keys:
+            found = (fi, keys)
+            break
+    run._rule_cache["cur_reader"] = found
+    return found
+
+
+def cur_norm(run: Run, key: str) -> str:
+    """``key`` with every form of "the current thread's runtime" (see current_runtime_reader) written <CUR>."""
+    for k in sorted(current_runtime_reader(run)[1], key=len, reverse=True):
+        key = key.replace(k, "<CUR>")
+    return key
+
+
 def _current_runtime_callers(run: Run):
     """(qualname, line) of every call of the function that reads the thread -> runtime table for the current thread."""
     m, rt = _rt(run)
-    cur = None
-    for q, fi in run.repo.functions.items():
+    cur = current_runtime_reader(run)[0]
+    for q, fi in ([] if cur is not None else run.repo.functions.items()):
         # the reader: takes no argument and hands back what the table holds (or now holds) for the thread
         if fi.module is m and not (fi.node.args.args or fi.node.args.posonlyargs or fi.node.args.kwonlyargs) and any(
                 isinstance(r_, ast.Return) and r_.value is not None and any(
@@ -708,8 +749,7 @@ def rule_HI(run: Run) -> RuleResult:
     mh = run.repo.func("labrea.runtime.handle")
     mps = _fn_paths(run, mh.node, None)
     mp_ = [a.arg for a in mh.node.args.args]
-    CUR = f"call:setdefault({T_KEY},{OWN_THREAD},new:Runtime(Const(None)))"
-    ok = bool(mps) and all(p.status == "ret" and p.ret is not None and p.ret.key() == f"call:handle({CUR},{','.join(mp_)})" for p in mps)
+    ok = bool(mps) and all(p.status == "ret" and p.ret is not None and cur_norm(run, p.ret.key()) == f"call:handle(<CUR>,{','.join(mp_)})" for p in mps)
     res.add("labrea.runtime.handle:derives from the current runtime", ok, m.relpath, mh.node.lineno, f"{[p.ret.key()[:80] if p.ret is not None else p.status for p in mps]}", nec)
     for modname, fname in (("labrea.cache", "disabled"), ("labrea.logging", "disabled")):
         fi = run.repo.functions.get(f"{modname}.{fname}")
@@ -1039,7 +1079,10 @@ def rule_CW(run: Run) -> RuleResult:
     if r2 is not None:
         r2p = astu.param_names(r2)
         dps = analyse_function(Ctx(repo), ds.module, r2, cls=ds)
-        ok = bool(dps) and all(p.status == "ret" and [(e.target.key() if e.target is not None else "", [a_.key() for a_ in e.args]) for e in p.events if e.kind == "call" and e.text == "register"]
+        def _args(e):
+            # (keyword arguments that hand a parameter of the same name on unchanged — ``replace=replace`` — are part of no obligation)
+            return [a_.key() for a_ in e.args if not (a_.key().startswith("kw:") and a_.key() == f"kw:{a_.key()[3:].split('(')[0]}({a_.key()[3:].split('(')[0]})")]
+        ok = bool(dps) and all(p.status == "ret" and [(e.target.key() if e.target is not None else "", _args(e)) for e in p.events if e.kind == "call" and e.text == "register"]
                                == [("attr:overloads(self)", r2p[:2])] for p in dps)
     res.add("labrea.dataset.Dataset.register:delegates to self.overloads.register(key, value)", ok, ds.module.relpath, r2.lineno if r2 else 0, "", nec)
     # Dataset.overload(alias)(definition): the one implementation object (the definition itself when it is a dataset, else
@@ -1063,8 +1106,10 @@ def rule_CW(run: Run) -> RuleResult:
             if not regs:
                 continue
             reg_paths += 1
-            impls = {e.args[1].key() for e in regs if len(e.args) == 2}
-            keys_ = {e.args[0].key() for e in regs if e.args}
+            def _pos(e):
+                return [a_ for a_ in e.args if not a_.key().startswith("kw:")]      # (keyword extras — ``replace=…`` — aside)
+            impls = {_pos(e)[1].key() for e in regs if len(_pos(e)) == 2}
+            keys_ = {_pos(e)[0].key() for e in regs if _pos(e)}
             seen_alias_forms |= keys_
             if len(impls) != 1 or p.ret is None or p.ret.key() not in impls:
                 ok, how_ovl = False, f"registers {sorted(impls)} and returns {p.ret.key()[:60] if p.ret is not None else None}: not one implementation object for all aliases"
